@@ -776,7 +776,7 @@ class IkeSa(object):
             rekey_notify = request.get_notifies(PayloadNOTIFY.Type.REKEY_SA, encrypted=True)
             if rekey_notify:
                 # use only the first notification
-                rekeyed_child_sa = self.get_child_sa(rekey_notify[0].spi)
+                rekeyed_child_sa = self.get_child_sa(rekey_notify[0].spi, named_by_peer=True)
                 if rekeyed_child_sa is None:
                     raise ChildSaNotFound('The indicated SPI could not be found', spi=rekey_notify[0].spi,
                                           protocol=rekey_notify[0].protocol_id)
@@ -1099,7 +1099,7 @@ class IkeSa(object):
             # if protocol is either AH or ESP, delete the Child SAs and return the inbound SPI
             elif delete_payload.protocol_id in (Proposal.Protocol.AH, Proposal.Protocol.ESP):
                 for del_spi in delete_payload.spis:
-                    child_sa = self.get_child_sa(del_spi)
+                    child_sa = self.get_child_sa(del_spi, named_by_peer=True)
                     if child_sa is not None and child_sa.proposal.protocol_id == delete_payload.protocol_id:
                         xfrm.Xfrm.delete_child_sa(self, child_sa)
                         self.child_sas.remove(child_sa)
@@ -1148,9 +1148,11 @@ class IkeSa(object):
 
         return self.generate_response(Message.Exchange.CREATE_CHILD_SA, response_payloads)
 
-    def get_child_sa(self, spi):
+    def get_child_sa(self, spi, named_by_peer=False):
+        # the peer names a CHILD_SA by the SPI of its own inbound SA, which is our outbound one (RFC 7296 1.4.1, 3.10.1)
         try:
-            return next(x for x in self.child_sas if spi == x.inbound_spi or spi == x.outbound_spi)
+            return next(x for x in self.child_sas
+                        if spi == x.outbound_spi or (not named_by_peer and spi == x.inbound_spi))
         except StopIteration:
             return None
 
